@@ -1,12 +1,12 @@
 #!/bin/sh
 # tools/eval_mutants.sh <ID> [extra check ids...]: confirm and try the sub-agent mutants of /tmp/mut-<ID>/out/*
 id=$1; shift
-for d in /tmp/mut-$id/out/*/; do
+for d in ${MUTROOT:-/tmp/mut}-$id/out/*/; do
   n=$(basename $d)
   c=$(tools/confirm_mutant.sh $d)
   echo "### $id/$n: $c"
   case "$c" in CONFIRMED*)
-    mkdir -p seeded/$id-$n && cp $d/patch.diff $d/demo.rs $d/meta.json seeded/$id-$n/
-    tools/try_mutant.sh $d/patch.diff $id "$@" 2>&1 | cut -c1-260 | tee seeded/$id-$n/result.txt;;
+    mkdir -p seeded/$id${SUF:-}-$n && cp $d/patch.diff $d/demo.rs $d/meta.json seeded/$id${SUF:-}-$n/
+    tools/try_mutant.sh $d/patch.diff $id "$@" 2>&1 | cut -c1-260 | tee seeded/$id${SUF:-}-$n/result.txt;;
   esac
 done
